@@ -913,5 +913,5 @@ func TestEnum(t *testing.T) {
 }
 
 func TestReplay(t *testing.T) {
-	core.Replay(t, seqCheck, gridCheck, bigGridCheck, hexCheck, treeCheck, appendCheck, appendGridCheck)
+	core.Replay(t, seqCheck, gridCheck, bigGridCheck, hexCheck, treeCheck, appendCheck, appendGridCheck, parsedCheck)
 }
